@@ -125,7 +125,16 @@ func (c *Crew) init(ctx context.Context) error {
 	c.previous = make(map[string]string, 8)
 
 	f := func(ctx context.Context, te *TimerEntry) {
-		c.in <- te.Msg
+		// The crew loop (and not the timer's goroutine)
+		// updates the timers and the timers machine's state.
+		c.in <- func(c *Crew) interface{} {
+			if !c.timers.claim(te) {
+				// Cancelled or replaced in the meantime.
+				return nil
+			}
+			c.timers.changed()
+			return te.Msg
+		}
 	}
 	c.timers = NewTimers(f)
 	c.timers.c = c
@@ -200,14 +209,14 @@ func (c *Crew) SetMachine(ctx context.Context, mid string, src *crew.SpecSource,
 
 		if state == nil {
 			state = DefaultState(nil)
-			state.Bs["timers"] = c.timers.Map
+			state.Bs["timers"] = c.timers.State().Bs["timers"]
 
 		}
 		if ts, have := state.Bs["timers"]; have {
 			if err := c.timers.withMap(ts); err != nil {
 				return err
 			}
-			m.State.Bs["timers"] = c.timers.Map
+			m.State.Bs["timers"] = c.timers.State().Bs["timers"]
 			if err := c.timers.Start(ctx); err != nil {
 				return err
 			}
@@ -265,7 +274,9 @@ func (c *Crew) ProcessMsg(ctx context.Context, msg interface{}) (*Result, error)
 		c.Logf("ProcessMsg at %s (%d)", JS(msg), len(pending))
 
 		if f, is := msg.(func(*Crew) interface{}); is {
-			msg = f(c)
+			if msg = f(c); msg == nil {
+				continue
+			}
 		}
 
 		walkeds, err := c.RunMachines(ctx, msg)
